@@ -245,6 +245,10 @@ static int64_t proc_next_time(void);
 static void raise_process_sig(int sig);
 
 /* ---- signals --------------------------------------------------------- */
+/* The kernel orders sigaction() before any invocation of the handler it installs; the
+ * simulated delivery is a plain call, so that edge is declared to TSan explicitly. */
+extern void __tsan_acquire(void *addr) __attribute__((weak));
+extern void __tsan_release(void *addr) __attribute__((weak));
 static struct { int kind; void (*h)(int); uint64_t mask; int flags; } sigtab[65];
 static uint64_t proc_sigpend;
 #define SBIT(s) (1ULL << ((s) - 1))
@@ -1152,7 +1156,7 @@ long simk_syscall(long nr, ...)
 		simk_yield();
 		f = fault_at(FS_EVENTFD2);
 		if (f) { errno = f->err; return -1; }
-		r = syscall(SYS_eventfd2, a0, a1);
+		r = eventfd((unsigned int)a0, (int)a1);	/* libc wrapper: descriptor creation stays visible to TSan */
 		if (r >= 0)
 			fd_own((int)r);
 		return r;
@@ -1160,7 +1164,7 @@ long simk_syscall(long nr, ...)
 		simk_yield();
 		f = fault_at(FS_EVENTFD);
 		if (f) { errno = f->err; return -1; }
-		r = syscall(SYS_eventfd, a0);
+		r = eventfd((unsigned int)a0, 0);
 		if (r >= 0)
 			fd_own((int)r);
 		return r;
@@ -1168,7 +1172,7 @@ long simk_syscall(long nr, ...)
 		simk_yield();
 		f = fault_at(FS_EPOLL_CREATE1);
 		if (f) { errno = f->err; return -1; }
-		r = syscall(SYS_epoll_create1, a0);
+		r = epoll_create1((int)a0);
 		if (r >= 0)
 			fd_own((int)r);
 		return r;
@@ -1176,7 +1180,7 @@ long simk_syscall(long nr, ...)
 		simk_yield();
 		f = fault_at(FS_PIPE2);
 		if (f) { errno = f->err; return -1; }
-		r = syscall(SYS_pipe2, a0, a1);
+		r = pipe2((int *)a0, (int)a1);
 		if (r == 0) {
 			int *p = (int *)a0;
 			fd_own(p[0]);
@@ -1440,6 +1444,8 @@ int simk_sigaction(int sig, const struct sigaction *act, struct sigaction *old)
 		sigtab[sig].h = act->sa_handler;
 		sigtab[sig].mask = set_to_bits(&act->sa_mask);
 		sigtab[sig].flags = act->sa_flags;
+		if (__tsan_release)
+			__tsan_release(&sigtab[sig]);
 		simk_log(50, sig, sigtab[sig].kind);
 	}
 	return 0;
@@ -1472,6 +1478,8 @@ static void run_handler(int sig)
 	simk_log(51, sig, me);
 	if (simk_obs.sig_deliver)
 		simk_obs.sig_deliver(me, sig, 0);
+	if (__tsan_acquire)
+		__tsan_acquire(&sigtab[sig]);
 	sigtab[sig].h(sig);
 	if (simk_obs.sig_deliver)
 		simk_obs.sig_deliver(me, sig, 1);
